@@ -13,7 +13,7 @@ EXPLANATION = (
     "sharp s and theta variants, internal blank runs, duplicates) chosen by a symbolic index; destination/title/text carry free characters."
 )
 BOUNDS = {
-    "quick": "2 definitions and one use with labels chosen by the solver from the 12-label menu (all 1728 combinations, concrete title); 1 free character in the title on two fixed label layouts; "
+    "quick": "3 definitions and one use with labels chosen by the solver from the 12-label menu (all 20736 combinations, concrete title); 1 free character in the title on two fixed label layouts; "
              "reference-vs-inline form: one free character at a time in destination (ASCII + 7 non-ASCII representatives), title, text; links and images",
     "thorough": "3 definitions from the full menu; free characters in title and link text on the fixed layouts; forms with two free characters at a time, both presets",
 }
@@ -180,7 +180,7 @@ HARNESSES = {
 
 def jobs(tier, seed):
     jobs = []
-    nd = 2 if tier == "quick" else 3
+    nd = 3
     for l0 in range(len(LABELS)):
         # labels (all definitions and the use) chosen by the solver from the full menu; concrete title/text
         jobs.append({"harness": "seeded", "params": {"cfg": CM, "ndef": nd, "l0": l0}, "weight": 4, "cpu_cap": 3000, "wall_cap": 4000})
